@@ -29,6 +29,13 @@ def check(repo: Repo, rep, tier):
     apply_once(repo, rep)
     write_fresh(repo, rep)
     nested_drop(repo, rep)
+    rel_path_total(repo, rep)
+    from .C03 import char_units
+
+    char_units(repo, rep)
+    from .C03 import element_parens
+
+    element_parens(repo, rep)
 
 
 SESSION_END = ("_get_changes", "_new_code")
@@ -702,6 +709,35 @@ def nested_drop(repo: Repo, rep):
     if not bad and n_use:
         rep.ok("R-NESTED-DROP", f, lp.ast, f"{n_use} routing/application sites behind the containment test")
     rep.floor("R-NESTED-DROP", "routing/application sites", n_use, 2)
+    # insertions: their node IS the container they insert into, so the container itself counts (a nested `snapshot()` without value
+    # whose call is deleted as an element: the create is an insertion into that very call)
+    for c, _ in guards:
+        e = c.ast
+        extra = list(e.args[2:]) + [k.value for k in e.keywords]
+        covers_self = False
+        for a in extra:
+            vals = [a]
+            if isinstance(a, ast.Name):
+                vals = [def_value(d, a.id) for d in reaching_defs(cfg, c, a.id)]
+            for x in vals:
+                if x is not None and "isinstance" in norm(x) and any(k in norm(x) for k in ("ListInsert", "DictInsert", "CallArg")):
+                    covers_self = True
+        # or a separate membership test of the node itself for the insertion kinds
+        for c2 in cfg.conds():
+            t = c2.ast
+            if isinstance(t, ast.Compare) and len(t.ops) == 1 and isinstance(t.ops[0], ast.In) and norm(t.left) == f"{v}.node":
+                covers_self = True
+        if covers_self:
+            rep.ok("R-NESTED-DROP", f, e, "for insertions the container itself counts as removed node")
+        else:
+            rep.violation(
+                "R-NESTED-DROP",
+                f,
+                e,
+                "the containment test starts at the parent of the node for every kind of change: an insertion (whose node is the container it inserts into) is still applied when that very container is deleted or replaced - "
+                "`assert [1, 2, 3] == snapshot([snapshot(), 1, 2])` + create,fix gives a create inside the deleted element (overlapping edits, AssertionError at session end)",
+                construct="insertion-into-removed-container",
+            )
 
 
 # parent node kind -> the insertion kind its emitters produce (SequenceAdapter -> ListInsert on a List/Tuple display,
@@ -836,3 +872,33 @@ def apply_routing(repo: Repo, rep):
             continue
         rep.ok("R-APPLY-ROUTING", f, c.ast, f"ast.{label}: consumes {want_kind}, enumerates {sorted(lists)}, removes exactly the delete set, one update call")
     rep.floor("R-APPLY-ROUTING", "parent branches", b_n, 3)
+
+
+def rel_path_total(repo: Repo, rep):
+    rep.rule(
+        "R-REL-PATH-TOTAL",
+        "session-end code never lets `Path.relative_to()` decide whether the session completes: every relative_to() call in pytest_plugin.py sits in a `try` "
+        "with a ValueError (or broader) handler or behind an is_relative_to() test.  The test files of a session need not live below the current directory "
+        "(`pytest --rootdir=proj proj/test_a.py` started elsewhere); an unguarded call ends the session with an internal error before anything is written",
+    )
+    n = 0
+    for f in repo.pkg_funcs():
+        if f.module.rel != "pytest_plugin.py":
+            continue
+        for c in [x for x in body_nodes(f.node) if isinstance(x, ast.Call) and isinstance(x.func, ast.Attribute) and x.func.attr == "relative_to"]:
+            n += 1
+            guarded = False
+            for a in ancestors(c):
+                if isinstance(a, ast.Try) and any(c is y for s in a.body for y in ast.walk(s)) and any(h.type is None or any(k in norm(h.type) for k in ("ValueError", "Exception")) for h in a.handlers):
+                    guarded = True
+                if isinstance(a, (ast.If, ast.IfExp)) and "is_relative_to" in norm(a.test):
+                    guarded = True
+                if a is f.node:
+                    break
+            if guarded:
+                rep.ok("R-REL-PATH-TOTAL", f, c, "relative_to() guarded")
+            else:
+                rep.violation("R-REL-PATH-TOTAL", f, c, f"`{short(c, 60)}` in {f.qualname} raises ValueError for a test file outside that directory: the session ends with an internal error and the approved changes are not written", construct=f"{f.qualname}:relative_to")
+    rep.count("relative_to_calls", n)
+    if n == 0:
+        rep.ok("R-REL-PATH-TOTAL", repo.func("pytest_plugin.py::pytest_sessionfinish"), None, "no relative_to() in the plugin", site="src/inline_snapshot/pytest_plugin.py: relative_to")
